@@ -75,6 +75,9 @@ pub fn contract_chunk_header_bytes(b: [u8; 2]) {
     let mut log = Log::new();
     let h = p.unpack_warn(&mut log);
     assert!(h.flags < 4 && (h.size >> CHUNK_SIZE_BITS) == 0);
+    // field formulas (= spec fns ch_flags / ch_size of the Verus units)
+    assert!(h.flags == (b[0] & 0b1100_0000) >> 6);
+    assert!(h.size == (((b[0] & 0b0011_1111) as u16) << 4) | ((b[1] & 0b0000_1111) as u16));
     let canonical = b[1] & 0b1111_0000 == 0;
     if canonical {
         assert!(log.n == 0);
@@ -102,6 +105,10 @@ pub fn contract_chunk_header_vital_bytes(b: [u8; 3]) {
     let mut log = Log::new();
     let h = p.unpack_warn(&mut log);
     assert!(h.h.flags < 4 && (h.h.size >> CHUNK_SIZE_BITS) == 0 && h.sequence < SEQUENCE_MODULUS);
+    // field formulas (= spec fns ch_flags / ch_size / ch_seq of the Verus units)
+    assert!(h.h.flags == (b[0] & 0b1100_0000) >> 6);
+    assert!(h.h.size == (((b[0] & 0b0011_1111) as u16) << 4) | ((b[1] & 0b0000_1111) as u16));
+    assert!(h.sequence == (((b[1] & 0b1111_0000) as u16) << 2) | ((b[2] & 0b1111_1111) as u16));
     // the two top bits of the low sequence byte are transmitted twice
     let canonical = (b[1] & 0b0011_0000) >> 4 == (b[2] & 0b1100_0000) >> 6;
     if canonical {
